@@ -2,17 +2,23 @@
 //! model side).  One command per stdin line, one result line per command.
 mod ck;
 mod e2;
+mod lockeng;
 mod util;
 mod wal;
 
 use std::io::{BufRead, Write};
 
 fn main() {
+    let argv: Vec<String> = std::env::args().collect();
+    if argv.len() >= 4 && argv[1] == "lk-child" {
+        return lockeng::child_main(&argv[2], &argv[3]);
+    }
     let stdin = std::io::stdin();
     let stdout = std::io::stdout();
     let mut out = std::io::BufWriter::new(stdout.lock());
     let mut wal_engine: Option<wal::WalEngine> = None;
     let mut e2_engine: Option<e2::E2> = None;
+    let mut lk_engine: Option<lockeng::Lk> = None;
     std::panic::set_hook(Box::new(|_| {}));
     for line in stdin.lock().lines() {
         let line = line.unwrap();
@@ -34,6 +40,15 @@ fn main() {
                     "ok".to_string()
                 } else {
                     e2_engine.get_or_insert_with(e2::E2::new).cmd(&toks[1..])
+                }
+            }
+            "lk" => {
+                if toks.len() > 1 && toks[1] == "new" {
+                    lk_engine = None; // kills the children, closes the openers, removes the directory
+                    lk_engine = Some(lockeng::Lk::new());
+                    "ok".to_string()
+                } else {
+                    lk_engine.get_or_insert_with(lockeng::Lk::new).cmd(&toks[1..])
                 }
             }
             _ => "bad-command".to_string(),
